@@ -1,8 +1,126 @@
-(* C05 -- statements only; proofs in Proofs/EffectsP.v *)
-From Coq Require Import List ZArith.
+(* C05 -- `<name>_complete` fires exactly once, after the whole causal closure has drained.
+   Only statements here; proofs are in Proofs/EffectsP.v, the model in Model/Effects.v
+   (the model of the code WITH fixes/C05_cancelled_effect.patch and
+   fixes/C05_generator_step_effects.patch applied).
+
+   Reading guide.  A state [s] is [reachable] when it is obtained from [start roots] (any forest
+   of scripted events fired from outside a handler) by ANY sequence of steps
+   [LDisp] (dispatch the head of the queue) / [LTask p] (one next() of the p-th pending generator
+   handler): every task-set iteration order and every interleaving of task steps and flushes,
+   not only the one of Manager.tick.  Events are numbered in firing order.  [gpar s d = Some h]
+   (ghost) says that d was fired by a handler (plain, or any step of a generator handler) of h,
+   or is the `exception` event of a raising handler of h; [gdesc (gpar s) e d] is "d belongs to
+   the causal closure of e".  [phase s d = PFin] (ghost) says that d has been dispatched to all
+   its handlers and all its generator handlers have returned, or that d was cancelled and has
+   been skipped by the dispatcher.  [log s] is newest-first. *)
+From Coq Require Import List ZArith Bool Arith.
 From Circ Require Import Model.Effects Proofs.EffectsP.
 Import ListNotations.
 
-Theorem C05_placeholder : start [] = init.
-Proof. exact start_nil. Qed.
-Print Assumptions C05_placeholder.
+(* the invariant named by the property's anchors: for every event that still carries a cause
+   attribute, effects = (1 if the event itself is not finished) + number of events whose cause
+   attribute points to it *)
+Theorem C05_counter : forall s, reachable s -> forall e, cause s e <> None ->
+  effects s e = Z.of_nat (selfc (phase s) e + cnt (childb (cause s) e) (next s)).
+Proof. exact counter_inv. Qed.
+Print Assumptions C05_counter.
+
+(* the `while True` cause-chain walk of _eventDone always terminates (the fuel of the model's
+   walk is never exhausted) *)
+Theorem C05_walk_terminates : forall s, reachable s -> oof s = false.
+Proof. exact no_out_of_fuel. Qed.
+Print Assumptions C05_walk_terminates.
+
+(* at most once, in every reachable state *)
+Theorem C05_once : forall s, reachable s -> forall e, fc_count e (log s) <= 1.
+Proof. exact complete_at_most_once. Qed.
+Print Assumptions C05_once.
+
+(* only after the closure has drained: when <e>_complete has been fired, every event of the
+   closure of e (e itself, everything fired directly or transitively by plain handlers or by
+   generator steps, the exception events of raising handlers; cancelled and stopped events
+   included) is finished ... *)
+Theorem C05_after_closure : forall s, reachable s -> forall e d,
+  In (LFC e) (log s) -> gdesc (gpar s) e d -> phase s d = PFin.
+Proof. exact complete_after_closure. Qed.
+Print Assumptions C05_after_closure.
+
+(* ... where finished is final: such an event is neither queued nor has a pending generator ... *)
+Theorem C05_finished_is_final : forall s, reachable s -> forall d, phase s d = PFin ->
+  ~ In d (queue s) /\ (forall t, In t (tasks s) -> tev t <> d).
+Proof. exact fin_is_final. Qed.
+Print Assumptions C05_finished_is_final.
+
+(* ... and, purely in terms of the log: no handler invocation, generator step or firing of an
+   event of the closure of e is logged after the firing of <e>_complete (l2 = what came later) *)
+Theorem C05_after_closure_log : forall s, reachable s -> forall l1 l2 e y d,
+  log s = l2 ++ LFC e :: l1 -> In y l2 -> hentry y d -> ~ gdesc (gpar s) e d.
+Proof. exact complete_log_order. Qed.
+Print Assumptions C05_after_closure_log.
+
+(* always eventually: as soon as the closure of a fired, not cancelled, complete-requesting
+   event has drained, <e>_complete has been fired -- exactly once.  No hypothesis on how the
+   members of the closure ended (cancelled before dispatch, stopped, raising handlers) *)
+Theorem C05_fires_when_drained : forall s, reachable s ->
+  forall e, e < next s -> ev_compl (spec s e) = true -> ev_canc (spec s e) = false ->
+  (forall d, gdesc (gpar s) e d -> phase s d = PFin) ->
+  fc_count e (log s) = 1.
+Proof. exact complete_when_drained. Qed.
+Print Assumptions C05_fires_when_drained.
+
+(* in particular when the queue and the task set are empty *)
+Theorem C05_eventually : forall s, reachable s -> queue s = [] -> tasks s = [] ->
+  forall e, e < next s -> ev_compl (spec s e) = true -> ev_canc (spec s e) = false ->
+  fc_count e (log s) = 1.
+Proof. exact complete_eventually. Qed.
+Print Assumptions C05_eventually.
+
+(* and then nothing is left behind: every event is finished and has lost its cause attribute *)
+Theorem C05_quiescent_clean : forall s, reachable s -> queue s = [] -> tasks s = [] ->
+  forall e, e < next s -> phase s e = PFin /\ cause s e = None.
+Proof. exact quiescent_all_finished. Qed.
+Print Assumptions C05_quiescent_clean.
+
+(* the executable [run] used by the correspondence check (Manager.tick's schedule, task order
+   per tick given) only produces reachable states, so all of the above applies to it *)
+Theorem C05_run_reachable : forall fuel sched roots,
+  oof (run fuel sched (start roots)) = false -> reachable (run fuel sched (start roots)).
+Proof. intros fuel sched roots. apply run_reachable. apply start_reachable. Qed.
+Print Assumptions C05_run_reachable.
+
+(* ---- non-vacuity: concrete programs *)
+
+(* root 1 (complete) has a generator handler whose second step fires 2; 2's handler fires 3
+   (cancelled) and 4 (whose handler stops and raises).  <1>_complete is fired once, last. *)
+Definition ex_prog : list ev :=
+  [Ev 1 true false
+      [HG [[]; [Ev 2 false false
+                   [HP [Ev 3 false true [HP [] false false];
+                        Ev 4 true false [HP [] true true; HP [] false false]] false false]]]]].
+Definition ex_final : st := run 20 [[]; [(1, 0)]; [(1, 0)]] (start ex_prog).
+
+Example C05_ex_reachable_quiet :
+  reachable ex_final /\ queue ex_final = [] /\ tasks ex_final = [] /\ next ex_final = 7.
+Proof.
+  split; [apply C05_run_reachable; vm_compute; reflexivity|]. vm_compute. auto.
+Qed.
+(* ids: 0 = event 1, 1 = event 2, 2 = event 3 (cancelled), 3 = event 4, 4 = exception event of 4,
+   5 = <4>_complete, 6 = <1>_complete *)
+Example C05_ex_log : rev (log ex_final) =
+  [LF 0; LG 0 0 0; LG 0 0 1; LF 1; LH 1 0; LF 2; LF 3; LH 3 0; LFC 3; LFC 0; LDC 3; LDC 0].
+Proof. vm_compute. reflexivity. Qed.
+Example C05_ex_closure : gdesc (gpar ex_final) 0 4 /\ gpar ex_final 2 = Some 1 /\ ev_canc (spec ex_final 2) = true.
+Proof.
+  split; [|vm_compute; auto].
+  apply gd_step with (h := 3); [vm_compute; reflexivity|].
+  apply gd_step with (h := 1); [vm_compute; reflexivity|].
+  apply gd_step with (h := 0); [vm_compute; reflexivity|]. apply gd_refl.
+Qed.
+(* a reachable state in which the counter invariant is non-trivial: event 2 (id 1) has been
+   dispatched and is finished, its two effects (ids 2, 3) are still queued: effects = 0 + 2;
+   event 1 (id 0) has finished too and waits for event 2 only: effects = 0 + 1 *)
+Example C05_ex_counter :
+  let s := exec [LDisp; LTask 0; LTask 0; LDisp] (start ex_prog) in
+  cause s 1 = Some 0 /\ effects s 1 = 2%Z /\ phase s 1 = PFin /\
+  cnt (childb (cause s) 1) (next s) = 2 /\ effects s 0 = 1%Z /\ phase s 0 = PFin /\ queue s = [2; 3].
+Proof. vm_compute. repeat split; reflexivity. Qed.
